@@ -193,3 +193,106 @@ Theorem C09_liveness_filter_round_partial :
     memN (ExecReport.m_seq m) (ExecReport.c_exec (ExecReport.mark_executed r cd)) = true.
 Proof. exact ExecLivenessP.add_includes_eligible. Qed.
 Print Assumptions C09_liveness_filter_round_partial.
+
+(* ===================== History level (Model/ExecCycles.v, Proofs/ExecCyclesP.v) =====================
+   State = the destination's content as the plugin reads it (clock, committed reports with their commit time,
+   executed messages, not-ready messages, curses, configured source chains); events = time advance | commit report
+   lands | executions become visible | readiness / curses / role map change | a cycle, with the part of its report
+   that lands at once.  [reached V t0 evs] is the state after the event list [evs]; V = MessageVisibilityInterval.
+   The plugin keeps no memory between cycles, so the model of a cycle is a function of the current state; the
+   harness part C09_cycles compares every cycle of long-lived plugins with exactly that function. *)
+Require Import Verif.Model.ExecCycles Verif.Proofs.ExecCyclesP.
+
+(* the observation of a cycle (reader arguments, pending after GetCommitReports, report, pending after Filter) is a
+   function of the destination's content when the cycle starts - for every history before it and after it *)
+Theorem C09_hist_cycle_memoryless : forall V evs1 st nobs land evs2,
+  run_from V st (evs1 ++ ECycle nobs land :: evs2) =
+  run_from V st evs1 ++ cycle_obs V (state_after V st evs1) nobs ::
+  run_from V (state_after V st (evs1 ++ [ECycle nobs land])) evs2.
+Proof. exact run_from_cycle. Qed.
+Print Assumptions C09_hist_cycle_memoryless.
+
+(* at the start of every cycle of every history, for every legal shape [ex] the reader gives to the executed set of a
+   source chain: the pending filter succeeds ... *)
+Theorem C09_hist_filter_total : forall V t0 evs c ex,
+  exec_view (reached V t0 evs) c ex ->
+  exists out, filter_executed (chain_reps V (reached V t0 evs) c) ex = Ok out.
+Proof. exact hist_filter_total. Qed.
+Print Assumptions C09_hist_filter_total.
+
+(* ... pending = exactly the committed reports inside the window that have an unexecuted message, each recording
+   the destination's executed set inside its interval *)
+Theorem C09_hist_pending_exact : forall V t0 evs c ex out,
+  let st := reached V t0 evs in
+  exec_view st c ex ->
+  filter_executed (chain_reps V st c) ex = Ok out ->
+  (forall r, In r (d_reports st) -> cr_chain r = c ->
+     ((exists r', In r' out /\ p_id r' = cr_id r /\ p_lo r' = cr_lo r /\ p_hi r' = cr_hi r) <->
+      (in_window V st r = true /\ ~ (forall s, cr_lo r <= s <= cr_hi r -> In (c, s) (d_exec st))))) /\
+  (forall r' s, In r' out -> (in_runs (p_exec r') s <-> (p_lo r' <= s <= p_hi r' /\ In (c, s) (d_exec st)))).
+Proof. exact hist_pending_exact. Qed.
+Print Assumptions C09_hist_pending_exact.
+
+(* legal reader answers exist in every reachable state (non-vacuity of [exec_view]): one range per executed message *)
+Theorem C09_hist_reader_answer_legal : forall V t0 evs c,
+  exec_view (reached V t0 evs) c (exec_ranges (reached V t0 evs) c).
+Proof. exact hist_exec_view_exists. Qed.
+Print Assumptions C09_hist_reader_answer_legal.
+
+(* the candidate set of a cycle in closed form: the cycle is not blocked by a global / destination curse, the source
+   chain is configured and not cursed, some committed report inside the window contains the message, the message is
+   not executed and is ready *)
+Theorem C09_hist_candidates : forall V t0 evs m,
+  In m (offered V (reached V t0 evs)) <-> candidate V (reached V t0 evs) m.
+Proof. intros V t0 evs m. exact (offered_iff V (reached V t0 evs) (reached_inv V t0 evs) m). Qed.
+Print Assumptions C09_hist_candidates.
+
+(* never re-executed: a message executed at some point of a history is a candidate of no later cycle *)
+Theorem C09_hist_never_reexecuted : forall V t0 evs1 evs2 m,
+  In m (d_exec (reached V t0 evs1)) -> ~ In m (offered V (reached V t0 (evs1 ++ evs2))).
+Proof. exact hist_never_reexecuted. Qed.
+Print Assumptions C09_hist_never_reexecuted.
+
+(* never lost: a message of a committed report is a candidate of EVERY later cycle in which it is still unexecuted,
+   inside the window, of a live chain and ready - whether the reports of the cycles in between landed, landed partly,
+   late, or never (non-landing cannot lose it: nothing but the destination's content is remembered) *)
+Theorem C09_hist_no_loss : forall V t0 evs1 evs2 r s,
+  let st2 := reached V t0 (evs1 ++ evs2) in
+  In r (d_reports (reached V t0 evs1)) -> cr_lo r <= s <= cr_hi r ->
+  cycle_open st2 = true -> In (cr_chain r) (live_chains st2) -> in_window V st2 r = true ->
+  ~ In (cr_chain r, s) (d_exec st2) -> ~ In (cr_chain r, s) (d_blocked st2) ->
+  In (cr_chain r, s) (offered V st2).
+Proof. exact hist_no_loss. Qed.
+Print Assumptions C09_hist_no_loss.
+
+(* only committed messages are ever executed (what lands with a cycle was in its report) *)
+Theorem C09_hist_executed_committed : forall V t0 evs m,
+  In m (d_exec (reached V t0 evs)) -> committed (reached V t0 evs) m = true.
+Proof. exact hist_executed_committed. Qed.
+Print Assumptions C09_hist_executed_committed.
+
+(* non-vacuity: a concrete history (two reports committed at different times, a report that never lands, a late
+   landing, the window moving past the older report) and the hypotheses of C09_hist_no_loss on it *)
+Theorem C09_hist_nonvacuous :
+  length (run_from 60 (init 1000) ex_events) = 4%nat /\
+  (let st2 := reached 60 1000 (firstn 6 ex_events ++ []) in
+   In (mkCR 1 1 10 12 1000) (d_reports (reached 60 1000 (firstn 6 ex_events))) /\
+   cycle_open st2 = true /\ In 1 (live_chains st2) /\ in_window 60 st2 (mkCR 1 1 10 12 1000) = true /\
+   ~ In (1, 11) (d_exec st2) /\ ~ In (1, 11) (d_blocked st2)).
+Proof. split; [now rewrite ex_history|exact ex_no_loss_hyps]. Qed.
+Print Assumptions C09_hist_nonvacuous.
+
+(* F55 (known finding): the liveness clause fails for a pending commit report whose messages do not fit one
+   observation.  truncateObservation (Model/Truncate.v; the last step of getMessagesObservation), on an observation that
+   is down to one commit report of one chain and still exceeds the limit, returns the error "no more data to truncate"
+   for every size function: no oracle produces a GetMessages observation, so no outcome is reached from the unchanged
+   previous outcome and the cycle never completes.  (C17_error_only_if_nothing_fits is the converse.)  The history
+   theorems above describe the candidate set under the stated condition that everything fits. *)
+Require Verif.Model.Truncate.
+Theorem C09_liveness_oversized_report_refuted :
+  forall (size : Truncate.tobs -> N) (max : Z) (pick : nat -> Truncate.tobs -> N)
+         (c : N) (d : Truncate.tcommit) msgs toks costly nonces,
+  let o := Truncate.mkTObs [(c, [d])] msgs toks costly nonces in
+  (max < Z.of_N (size o))%Z -> Truncate.truncate size max pick o = Err.
+Proof. exact oversized_report_no_observation. Qed.
+Print Assumptions C09_liveness_oversized_report_refuted.
